@@ -153,7 +153,7 @@ def teardown(ctx):
 def plan(tier):
     m = 1 if tier == 'quick' else 20
     return [('history', 260 * m), ('rejection', 60 * m), ('mixed_table', 40 * m), ('readers', 2 if tier == 'quick' else 4),
-            ('constructor', 60 * m)]
+            ('constructor', 60 * m), ('repo_tests', 5 if tier == 'quick' else len(REPO_TEST_FILES))]
 
 
 # ------------------------------------------------------------------------------------------
@@ -540,7 +540,35 @@ def case_readers(ctx, rng, idx):
     ctx.nontrivial.add(digest('readers', idx))
 
 
+# the first five are short (quick tier); the thorough tier runs all of them
+REPO_TEST_FILES = ['covobs_test.py', 'roots_test.py', 'integrate_test.py', 'mpm_test.py', 'special_test.py',
+                   'obs_test.py', 'linalg_test.py', 'correlators_test.py', 'json_io_test.py', 'fits_test.py',
+                   'pandas_test.py', 'openQCD_in_test.py', 'sfcf_in_test.py', 'misc_test.py']
+
+
+def case_repo_tests(ctx, idx):
+    """The repository's own tests as an extra workload: every producer call they make passes the
+    tapped invariant monitor (pre => post form, so deliberately malformed objects are not judged)."""
+    import pytest
+    f = os.path.join(ctx.repo, 'tests', REPO_TEST_FILES[idx])
+    if not os.path.exists(f):
+        raise Skip()
+    before = ctx.counters.get('producer_returns_checked', 0)
+    cwd = os.getcwd()
+    os.chdir(ctx.repo)
+    try:
+        rc = pytest.main(['-q', '-p', 'no:cacheprovider', '-p', 'no:xdist', '-p', 'no:benchmark', '--no-header', '-W', 'ignore', f])
+    finally:
+        os.chdir(cwd)
+    ctx.count('repo_test_files_run')
+    ctx.count('repo_test_producer_returns', ctx.counters.get('producer_returns_checked', 0) - before)
+    ctx.cell('repo_tests', REPO_TEST_FILES[idx])
+    ctx.nontrivial.add(digest('repo_tests', REPO_TEST_FILES[idx]))
+
+
 def run_case(ctx, kind, idx, rng):
+    if kind == 'repo_tests':
+        return case_repo_tests(ctx, idx)
     if kind == 'history':
         case_history(ctx, rng)
     elif kind == 'rejection':
